@@ -287,7 +287,14 @@ def evaluate__treat_expression(self: XPathToken, context: ta.ContextType = None)
         for _ in self[0].select(context):
             raise self.error('XPDY0050')
     elif self[1].label in ('kind test', 'sequence type', 'function test'):
+        if context is None:
+            raise self.missing_context()
+
         for position, item in enumerate(self[0].select(context)):
+            context.item = item
+            if context.axis is None:
+                context.axis = 'self'
+
             result = self[1].evaluate(context)
             if not result and isinstance(result, list):
                 raise self.error('XPDY0050')
